@@ -421,6 +421,8 @@ def random_relocation_records(args):
         out.append(reloc_record(calls[k % 4], spec, sub, form, P, tick, container=container))
         # mesh vertices: inside, far outside, copies of border and of interior data points
         nm = int(rng.integers(3, 25))
+        if N <= 80 and k % 2 == 0:
+            nm = N + int(rng.integers(0, 10))  # a mesh at least as long as the data grid (its own entries at the sub-border indices exist)
         M = c + rng.integers(-400, 401, size=(nm, 2))
         M[: nm // 3] = P[rng.choice(sbs, size=nm // 3)]
         M[nm // 3: nm // 2] = c + rng.integers(-5, 6, size=(nm // 2 - nm // 3, 2))
